@@ -83,6 +83,8 @@ def make_sim(case):
     else:
         sim = SerialSim(drv)
     sim.latencies = list(case.get("lat", []))
+    if hasattr(sim, "coalesce"):
+        sim.coalesce = list(case.get("coalesce", []))
     return sim
 
 
@@ -148,6 +150,13 @@ def _sequence(sim, cspec, cmds, rec):
         if cspec.get("raise_at") == len(cspec["cmds"]):
             raise ScriptedError("scripted failure at the end")
         return "seq-done"
+    except GeneratorExit:
+        # closed half-way (the caller was cancelled, or a command failed): a sequence with cleanup of its own
+        # that fails - the driver must still hand the bus to the next caller
+        if cspec.get("bad_close"):
+            rec["cleanup_raised"] = True
+            raise ScriptedError("scripted failure in the sequence's cleanup")
+        raise
     finally:
         rec["closed"] = True
 
@@ -201,9 +210,6 @@ def run(case, hooks=None):
     sim = make_sim(case)
     obs = {"driver": drv}
     try:
-        obs["connected"] = connect(sim, case)
-        if "after_connect" in hooks:
-            hooks["after_connect"](sim)
         recs = []
         callers = []
         expected_tag = {}
@@ -222,10 +228,26 @@ def run(case, hooks=None):
             rec = {"results": [], "status": "not-started"}
             recs.append(rec)
             callers.append((cspec, cmds, rec))
+        tasks = {}
+        t_pre = sim.loop.time()
+        for ci, (cspec, cmds, rec) in enumerate(callers):
+            if cspec.get("before_connect"):
+                # the program starts using the driver before connect() was called / has finished
+                rec["status"] = "running"
+                rec["t_start"] = -1.0
+                tasks[ci] = sim.start(_caller(sim, cspec, cmds, rec), tag=ci)
+                tasks[ci].add_done_callback(lambda _t, rec=rec: rec.__setitem__("t_done", sim.loop.time() - t_pre))
+        if tasks:
+            sim.loop.settle()
+        obs["connected"] = connect(sim, case)
+        if "after_connect" in hooks:
+            hooks["after_connect"](sim)
         # timeline of external events
         t0 = sim.loop.time()
         events = []
         for ci, (cspec, cmds, rec) in enumerate(callers):
+            if cspec.get("before_connect"):
+                continue
             events.append((cspec.get("t0", 0.0), 0, "start", ci))
             if cspec.get("cancel") is not None:
                 events.append((cspec["cancel"], 1, "cancel", ci))
@@ -234,7 +256,6 @@ def run(case, hooks=None):
         for inj in case.get("inject", []):
             events.append((inj["t"], 3, "inject", inj))
         events.sort(key=lambda e: (e[0], e[1]))
-        tasks = {}
         tie = case.get("tie", True)
         for (t, _, what, arg) in events:
             sim.run_until(t0 + t, chunk_first=tie)
@@ -307,6 +328,7 @@ def run(case, hooks=None):
             obs["status_log"] = list(sim.status)
             obs["traffic"] = list(sim.traffic)
             obs["opens"] = sim.gw.opens
+        obs["coalesced_reads"] = getattr(sim, "coalesced", 0)
         obs["_sim"] = sim
         if "inspect" in hooks:
             hooks["inspect"](sim, obs)
